@@ -19,6 +19,26 @@ func (s Edge) Pick(direction graph.Direction) uint64 {
 	return s.Start
 }
 
+// PickAdjacent returns the endpoint that is reached by following the edge away from the given node in the given
+// direction. Pick cannot answer this for graph.DirectionBoth since the far endpoint depends on the node the edge is
+// followed from. For a self loop the node itself is returned.
+func (s Edge) PickAdjacent(node uint64, direction graph.Direction) uint64 {
+	switch direction {
+	case graph.DirectionOutbound:
+		return s.End
+
+	case graph.DirectionInbound:
+		return s.Start
+
+	default:
+		if s.Start == node {
+			return s.End
+		}
+
+		return s.Start
+	}
+}
+
 type Triplestore interface {
 	DirectedGraph
 
@@ -164,8 +184,7 @@ func (s *triplestore) adjacent(node uint64, direction graph.Direction) cardinali
 				nodes.Add(edge.Start)
 
 			default:
-				nodes.Add(edge.End)
-				nodes.Add(edge.Start)
+				nodes.Add(edge.PickAdjacent(node, direction))
 			}
 		}
 
@@ -291,6 +310,6 @@ func (s *triplestoreProjection) EachAdjacentEdge(node uint64, direction graph.Di
 
 func (s *triplestoreProjection) EachAdjacentNode(node uint64, direction graph.Direction, delegate func(adjacent uint64) bool) {
 	s.EachAdjacentEdge(node, direction, func(next Edge) bool {
-		return delegate(next.Pick(direction))
+		return delegate(next.PickAdjacent(node, direction))
 	})
 }
